@@ -25,4 +25,6 @@ type Config struct {
 	StreamBuf  int     `json:"stream_buf"`
 	SettleMS   int     `json:"settle_ms"`
 	Direct     bool    `json:"direct"` // clients call the ledger API directly instead of the notary API
+	OpSkip     []int   `json:"op_skip,omitempty"`  // scenario-generated operations to leave out (set by the minimiser)
+	OpLimit    int     `json:"op_limit,omitempty"` // stop after this many scenario-generated operations (0 = all)
 }
